@@ -396,6 +396,20 @@ def run_obligation(ob: Obligation, seed=0):
         rec["status"] = "inconclusive"
         rec["notes"].append(f"SymError: {e}")
         rec["trace"] = traceback.format_exc()[-1500:]
+        # the code could not be executed symbolically (it realised a symbolic value): nothing is proved, but the
+        # harness' concrete witnesses are still run through the real code so that a plain wrong answer is not missed
+        if ob.witness is not None:
+            try:
+                for ninputs in ob.witness():
+                    if ob.valid is not None and not ob.valid(ninputs):
+                        continue
+                    ok, detail = numeric_verdict(ob, ninputs)
+                    if not ok:
+                        rec["status"] = "violation"
+                        rec["violation"] = {"source": "harness witness (symbolic execution was not possible)", "inputs": jsonable(ninputs), **detail}
+                        break
+            except Exception as e2:  # noqa: BLE001
+                rec["notes"].append(f"witness fallback failed: {type(e2).__name__}: {e2}")
     except Exception as e:  # noqa: BLE001
         rec["status"] = "error"
         rec["notes"].append(f"harness exception {type(e).__name__}: {e}")
